@@ -34,7 +34,19 @@ SizeCh == [n \in 1..46 |-> [t |-> "ClientHello", ver |-> 771, random |-> R32, si
 WellFormedExts == << <<0, 23, 0, 0>>, <<0, 0, 0, 6, 0, 4, 0, 0, 1, 97, 0, 23, 0, 0>>, <<0, 10, 0, 4, 0, 2, 0, 23, 0, 11, 0, 2, 1, 0, 0, 35, 0, 0>>, <<0, 21, 0, 2, 0, 0>> >>
 MidCh == Concat([n \in 1..6 |-> [x \in 1..4 |-> [t |-> "ClientHello", ver |-> 771, random |-> R32, sid |-> IF n % 2 = 0 THEN None ELSE Some(Fill(1, 32)),
                                                   ciphers |-> [k \in 1..(90 + 25 * n) |-> k], comp |-> <<0>>, ext |-> Some(WellFormedExts[x])]]])
-ASSUME TLCSet(2, MapSeq(ChIx, MkCh) \o MapSeq(ShIx, MkSh) \o D18 \o Cke \o Fin \o << [t |-> "HelloRequest"] >> \o SizeCh \o MidCh \o BigCh)
+(* hellos whose extension block is ONE extension of type T and total size T + 2 with an inner list length (ALPN with h2 + http/1.1 is *)
+(* T = 16, supported_groups with three groups is T = 10): the block's first 16 bits equal the length of the rest, so it LOOKS like a   *)
+(* block that already carries its length prefix - and is not: the serializer writes the length of whatever it is given                  *)
+SelfLenBlock(T) == BE16(T) \o BE16(T - 2) \o BE16(T - 4) \o Fill(T, T - 4)
+SelfLenCh == Concat([q \in 1..37 |-> LET T == q + 3 IN
+  << [t |-> "ClientHello", ver |-> 771, random |-> R32, sid |-> None, ciphers |-> <<4865, 47>>, comp |-> <<0>>, ext |-> Some(SelfLenBlock(T))],
+     [t |-> "ServerHello", ver |-> 771, random |-> R32, sid |-> Some(Fill(2, 32)), cipher |-> 47, comp |-> 0, ext |-> Some(SelfLenBlock(T))] >>])
+  \o << [t |-> "ClientHello", ver |-> 771, random |-> R32, sid |-> None, ciphers |-> <<4865>>, comp |-> <<0>>,
+          ext |-> Some(<<0, 16, 0, 14, 0, 12, 2, 104, 50, 8, 104, 116, 116, 112, 47, 49, 46, 49>>)],
+        [t |-> "ClientHello", ver |-> 771, random |-> R32, sid |-> None, ciphers |-> <<4865>>, comp |-> <<0>>,
+          ext |-> Some(<<0, 10, 0, 8, 0, 6, 0, 29, 0, 23, 0, 24>>)],
+        [t |-> "ServerHelloV13Draft18", ver |-> 32530, random |-> R32, cipher |-> 4865, ext |-> Some(<<0, 10, 0, 8, 0, 6, 0, 29, 0, 23, 0, 24>>)] >>
+ASSUME TLCSet(2, SelfLenCh \o MapSeq(ChIx, MkCh) \o MapSeq(ShIx, MkSh) \o D18 \o Cke \o Fin \o << [t |-> "HelloRequest"] >> \o SizeCh \o MidCh \o BigCh)
 HsVals == TLCGet(2)
 NH == Len(HsVals)
 
